@@ -290,6 +290,29 @@ func runC08(w *W) {
 			}
 		}
 	}
+	// long blank-line runs (every LF is an index entry in ND mode) before the last document, with the
+	// final index buffer at every fill level
+	for lead := 60; lead <= 130; lead += 2 {
+		for blanks := 40; blanks <= 200; blanks += 9 {
+			if !th && (lead+blanks)%3 != 0 {
+				continue
+			}
+			var b bytes.Buffer
+			for l := 0; l < lead; l++ {
+				b.WriteString(valid[(l*5+blanks)%13])
+				b.WriteByte('\n')
+			}
+			b.WriteString(strings.Repeat("\n", blanks))
+			b.WriteString(`{"last":[1,2,3]}`)
+			judge("blank-run-before-last", b.Bytes())
+		}
+	}
+	for _, dense := range []int{1300, 1400, 1408, 1470, 1500, 1536, 1600, 2816, 3000} {
+		for d := -2; d <= 2; d++ {
+			judge("dense-newlines", []byte(`{"a":1}`+strings.Repeat("\n", dense+d)+`[2]`))
+			judge("dense-newlines-lead", []byte(strings.Repeat("[0]\n", 200)+strings.Repeat("\n", dense+d)+`[2]`+"\n"))
+		}
+	}
 	// many lines
 	counts := []int{1000, 5000}
 	if th {
